@@ -9,7 +9,7 @@ from typing import Any
 
 import torch
 
-from .. import adapter, engine, gen, refmodel, spec
+from .. import adapter, depmon, engine, gen, refmodel, spec
 from ..engine import Oracle, SingleRun
 from ..runner import Outcome
 from . import common
@@ -86,6 +86,7 @@ class FaultSeam:
         import distributed_shampoo.utils.shampoo_preconditioner_list as m
 
         self.m = m
+        depmon.install()  # (the monitor sits underneath the fault seam)
         for name in ("matrix_inverse_root", "matrix_eigenvectors"):
             if not hasattr(m, name):
                 raise adapter.HarnessError(f"fault seam missing: shampoo_preconditioner_list.{name}")
@@ -312,6 +313,12 @@ class FaultOracle(Oracle):
             # rejects its non-finite result, or does not reject at all, is judged by the raise / no-raise clauses below.
             # Every other unmodelled call is a harness problem)
             raise adapter.HarnessError("matrix routine called outside the modelled refresh order")
+        if exp["raise"] is None and exc is not None and "nan or inf values in" in str(exc) and depmon.count() > getattr(run, "dep_before", 1 << 60):
+            # torch.linalg.eigh itself returned a non-finite decomposition of a finite matrix in this step: the documented
+            # answer is this raise; the run ends without a verdict on the rest
+            run.probes["dependency_eigh_nonfinite"] += 1
+            self.diverged = True
+            return
         if exp["raise"] is None and exc is not None:
             gi = next(iter(exp["refresh_groups"]), 0)
             tag = "raised_too_early" if "tolerance" in str(exc) else "unexpected_exception"
